@@ -354,6 +354,9 @@ func runApi(t *tr.Trace, r *tr.Rand, n int) {
 	must(os.MkdirAll(static, 0700))
 	apiHandler, err = webserver.VerifAPIHandler(static)
 	must(err)
+	siteHandler, err = webserver.VerifSiteHandler(static)
+	must(err)
+	groupOnlyHandler = webserver.VerifGroupHandler()
 
 	runMatrix(t, root, "", true)
 	runMatrixSubset(t, root, "galene.example", true)
@@ -365,6 +368,10 @@ func runApi(t *tr.Trace, r *tr.Rand, n int) {
 	for i := 0; i < (n+1)/2; i++ {
 		runRandom(t, r, root, i)
 	}
+	// the HTTP part of C12 (lines that the C17 model ignores); the site
+	// stream loads groups into memory and therefore comes last
+	runC12Api(t, root)
+	runC12Site(t, r, root)
 }
 
 // block: all methods and bodies of one (shape, credential), then a reset if
